@@ -113,6 +113,21 @@ def analyse_unit(unit):
     listed as undecided (the unit can no longer be reported OK); obligations that fail in the second run are
     failures of functions whose text did compile."""
     first = _analyse_unit(unit, ())
+    if first.get("weave_error"):
+        # an anchor was lost while weaving: second attempt in lenient mode (the function concerned becomes an assumed
+        # stub or is left out); the unit stays undecided, failures of the other functions are still reported
+        lost = []
+        second = _analyse_unit(unit, (), lenient=lost)
+        if second.get("weave_error") or not lost:
+            return first
+        if second.get("blocked_items"):
+            third = _analyse_unit(unit, tuple(second["blocked_items"]), lenient=[])
+            if not third.get("weave_error"):
+                second = third
+        second["undecided"] = first["undecided"] + ["fallback: " + x for x in lost] + \
+            [u for u in second["undecided"] if not u.startswith("vacuity canary")]
+        second["status"] = "undecided"
+        return second
     if first["status"] != "undecided" or not first.get("blocked_items"):
         return first
     demote = set(first["blocked_items"])
@@ -131,7 +146,7 @@ def analyse_unit(unit):
     return second
 
 
-def _analyse_unit(unit, demote):
+def _analyse_unit(unit, demote, lenient=None):
     """returns dict(status, failures[], canary_ok, metas, stats, ...)"""
     OUT = os.path.join(globals()["OUT"], CUR_PID or "_")
     os.makedirs(OUT, exist_ok=True)
@@ -140,10 +155,11 @@ def _analyse_unit(unit, demote):
            "metas": [], "functions": {}, "wall": 0.0, "blocked_items": []}
     blocked, unlocated = set(), False
     try:
-        text, lmap, metas, stats = weave.build_unit(tmpl, canaries=True, demote=demote)
+        text, lmap, metas, stats = weave.build_unit(tmpl, canaries=True, demote=demote, lenient=lenient)
     except weave.WeaveError as e:
         res["status"] = "undecided"
         res["undecided"].append(f"extraction/weave: {e}")
+        res["weave_error"] = True
         return res
     res["metas"], res["stats"] = metas, stats
     path = os.path.join(OUT, unit + ".rs")
